@@ -102,6 +102,17 @@ func runC17(c *ShardCtx) {
 	fam := &family{gens: gens2, inputs: inputs, opts: []rtapi.RunOpts{{MaxExpr: 300}, {MaxExpr: 300, AllowInvalid: true}}, nontrivial: nontriv,
 		cmp: core.CmpOpts{IgnoreEncodingErrs: true}, extra: encodingOracle, confEvery: 11, confQuota: 1}
 	idx := 0
+	// cross family (cross.go): every construct under every flag set on inputs with invalid bytes
+	{
+		var bad [][]byte
+		for _, x := range []string{"", "a", "\xff", "a\xff", "\xffa", "ab\x80", "a\xc3", "\xc3\xa9", "a\x80b", "\xe2\x82", "aB\xff", "\xed\xa0\x80", "\xef\xbf\xbd", "\xef\xbf"} {
+			bad = append(bad, []byte(x))
+		}
+		if !runCross(c, &idx, &crossSpec{maxSize: 3, gens: gens16, inputs: bad, opts: fam.opts, scripts: crossPredScripts, nontrivial: nontriv,
+			cmp: core.CmpOpts{IgnoreEncodingErrs: true, SkipNoMatch: true, SkipLog: true}, extra: encodingOracle}) {
+			return
+		}
+	}
 	// left-recursive family: an invalid byte first advanced onto inside the last (failing)
 	// growth iteration, whose errors are rolled back, and reached again afterwards
 	{
